@@ -40,6 +40,7 @@ type c04Fix struct {
 	txs  []*c04Tx
 	pool []*crypto.Key
 	mask crypto.Key
+	competitor *common.VersionedTransaction
 }
 
 func c04Setup() *c04Fix {
@@ -78,6 +79,16 @@ func c04Setup() *c04Fix {
 		}
 		ver = dec
 		f.txs = append(f.txs, &c04Tx{name: s.name, ver: ver, hash: ver.PayloadHash(), keys: s.keys})
+	}
+	// X: a competitor of A's input (spends the same output, pays to k2); used only
+	// for the finalization-path takeover of A's input (fork lock), which prunes
+	// A's stored body but must leave A's key bindings alone
+	{
+		a := f.txs[0]
+		tx := common.NewTransactionV5(common.BitcoinAssetId)
+		tx.AddInput(a.ver.Inputs[0].Hash, a.ver.Inputs[0].Index)
+		tx.Outputs = append(tx.Outputs, &common.Output{Type: common.OutputTypeScript, Amount: common.NewIntegerFromString("10"), Keys: []*crypto.Key{f.pool[2]}, Mask: f.mask, Script: common.NewThresholdScript(1)})
+		f.competitor = w.sign(tx)
 	}
 	// R: a node-remove transaction (keyed 0xa6 output, spends genesis node 6's
 	// accept output) whose output key is k0 — the non-script keyed output type
@@ -269,8 +280,10 @@ func (f *c04Fix) observe(m *c04Model) *c04Model {
 }
 
 type c04State struct {
-	f *c04Fix
-	m *c04Model
+	f        *c04Fix
+	m        *c04Model
+	admitted bool // A was admitted (locked + body persisted, not finalized)
+	taken    bool // A's input was taken over by the competitor
 }
 
 type c04Call struct {
@@ -338,16 +351,64 @@ func TestMC_C04(t *testing.T) {
 	}
 	ntx := len(probe.txs)
 	probe.w.L.Close()
+	names = append(names, "admit(A)", "takeover-input-of-A(X)")
 	b := &verifmc.BFS[*c04State]{
-		C: c, NumEvents: ntx * c04NOps, MaxDepth: verifmc.Pick(c, 4, 5),
+		C: c, NumEvents: ntx*c04NOps + 2, MaxDepth: verifmc.Pick(c, 4, 5),
 		EventName: func(e int) string { return names[e] },
 		New: func(int) *c04State {
 			return &c04State{f: c04Setup(), m: &c04Model{owner: map[int]string{}, final: map[string]bool{}}}
 		},
 		Close: func(s *c04State) { s.f.w.L.Close() },
-		Key:   func(s *c04State) string { return s.m.key() },
+		Key:   func(s *c04State) string { return fmt.Sprintf("%s adm=%v taken=%v", s.m.key(), s.admitted, s.taken) },
 		Apply: func(s *c04State, e int, replaying bool, report func(key, desc string)) bool {
+			if e >= ntx*c04NOps {
+				// the two extra events around A: ordinary admission (validate, lock
+				// inputs, persist body) and the takeover of A's input by a competitor
+				a := s.f.txs[0]
+				st := s.f.w.L.Store
+				before := s.m.key()
+				if e == ntx*c04NOps {
+					if s.m.final[a.name] || s.admitted {
+						return false
+					}
+					ok := s.m.reserve(a)
+					err := a.ver.Validate(st, s.f.w.Time, false)
+					if (err == nil) != ok {
+						if !replaying {
+							report("admit-validate-mismatch", fmt.Sprintf("admit(A) in [%s]: Validate error %v, reference allows=%v", before, err, ok))
+						}
+						return true
+					}
+					if err == nil {
+						if lerr := a.ver.LockInputs(st, false); lerr == nil {
+							if werr := st.WriteTransaction(a.ver); werr == nil {
+								s.admitted = true
+							}
+						}
+					}
+				} else {
+					if !s.admitted || s.m.final[a.name] || s.taken {
+						return false
+					}
+					if err := s.f.competitor.LockInputs(st, true); err != nil {
+						if !replaying {
+							report("takeover-failed", err.Error())
+						}
+						return true
+					}
+					s.taken = true
+				}
+				if !replaying {
+					if obs := s.f.observe(s.m); obs.key() != s.m.key() {
+						report("binding-changed-by-"+names[e], fmt.Sprintf("after %s from [%s]: stored bindings [%s], reference [%s] (a key, once reserved, stays bound to its transaction)", names[e], before, obs.key(), s.m.key()))
+					}
+				}
+				return true
+			}
 			tx, op := s.f.txs[e/c04NOps], e%c04NOps
+			if s.taken && tx.name == "A" {
+				return false // A's input now belongs to the competitor: A is dead, its keys stay bound
+			}
 			before := s.m.key()
 			en, want := c04Step(s.m, tx, op)
 			if !en {
